@@ -112,3 +112,28 @@ func (g *getStream) SetTrailer(metadata.MD)       {}
 func (g *getStream) Context() context.Context     { return g.ctx }
 func (g *getStream) SendMsg(any) error            { return errors.New("unused") }
 func (g *getStream) RecvMsg(any) error            { return errors.New("unused") }
+
+// Exported access for the concurrent driver.
+
+// ModStream is the in-process Modify stream.
+type ModStream = modStream
+
+// NewModStream returns a fresh in-process Modify stream.
+func NewModStream() *ModStream { return newModStream() }
+
+// In is the channel the server's Recv reads from.
+func (m *modStream) In() chan *spb.ModifyRequest { return m.in }
+
+// NSent is the number of responses the server wrote so far.
+func (m *modStream) NSent() int { return m.nsent() }
+
+// Take returns the responses written from index from on.
+func (m *modStream) Take(from int) []*spb.ModifyResponse { return m.take(from) }
+
+// Close ends the client side of the stream (io.EOF: half-close).
+func (m *modStream) Close(err error) { m.close(err) }
+
+// NewGetStream returns an in-process Get stream whose Send fails after failAfter responses (<0: never).
+func NewGetStream(failAfter int) *getStream {
+	return &getStream{ctx: context.Background(), failAfter: failAfter}
+}
